@@ -384,7 +384,7 @@ func passThroughRule(id string) func(w *World, r *Report) {
 func onlySplitterOps(bad []string) bool {
 	for _, b := range bad {
 		ok := false
-		for _, allowed := range []string{"call:(*regexp.Regexp).FindStringSubmatch", "call:strings.Split", "convert:string->[]rune", "convert:rune->string", "convert:[]rune->string", "call:strings.TrimPrefix", "binop:+", "call:" + nIterValue, "call:" + nIterPeek} {
+		for _, allowed := range []string{"call:(*regexp.Regexp).FindStringSubmatch", "call:strings.Split", "convert:string->[]rune", "convert:rune->string", "convert:[]rune->string", "call:strings.TrimPrefix", "call:strings.CutPrefix", "binop:+", "call:" + nIterValue, "call:" + nIterPeek} {
 			if strings.HasPrefix(b, allowed+" ") {
 				ok = true
 			}
